@@ -577,9 +577,38 @@ impl<'g, T> CallDriver<'g, T> {
 thread_local! {
     /// Polls issued after a stream returned `None` (evidence counter, read and reset by the runner).
     pub static POST_END_POLLS: std::cell::Cell<u64> = const { std::cell::Cell::new(0) };
+    /// FnRefs dropped from inside a waker clone, i.e. in the middle of a poll.
+    pub static MID_POLL_DROPS: std::cell::Cell<u64> = const { std::cell::Cell::new(0) };
     /// FnRef clones made (only non-zero on a tree where FnRef is Clone).
     pub static FNREF_CLONES: std::cell::Cell<u64> = const { std::cell::Cell::new(0) };
 }
+
+/// A waker for ONE poll whose `clone` runs a hook before handing back an ordinary flag waker.
+/// The library clones the waker at the moment it registers it with a channel, i.e. in the middle
+/// of `poll_next`; dropping a held FnRef from inside that clone is, for the code under test,
+/// exactly what a second thread dropping the FnRef at that instant would be (the channel's own
+/// lock-free protocol has to cope with a send that races the registration) - but deterministic
+/// and single-threaded. The hook waker lives on the stack of `poll_once` only; every clone the
+/// library keeps is a plain `Arc<Flag>` waker.
+struct HookCtx<'a> {
+    flag: Arc<Flag>,
+    hook: &'a dyn Fn(),
+}
+
+unsafe fn hook_clone(p: *const ()) -> std::task::RawWaker {
+    let ctx = &*(p as *const HookCtx<'_>);
+    (ctx.hook)();
+    let w = Waker::from(ctx.flag.clone());
+    let raw = std::task::RawWaker::new(w.data(), w.vtable());
+    std::mem::forget(w);
+    raw
+}
+unsafe fn hook_wake(p: *const ()) {
+    let ctx = &*(p as *const HookCtx<'_>);
+    ctx.flag.clone().wake();
+}
+unsafe fn hook_drop(_p: *const ()) {}
+static HOOK_VTABLE: std::task::RawWakerVTable = std::task::RawWakerVTable::new(hook_clone, hook_wake, hook_wake, hook_drop);
 
 /// "Exercise a capability if the type has it" (autoref specialisation, decided at compile time):
 /// `FnRef` is a guard whose drop reports the function as finished. Should it ever become `Clone`,
@@ -636,6 +665,8 @@ pub struct StreamDriver<'g> {
     /// Polls issued after the stream returned `None`.
     pub post_end_polls: usize,
     yields_seen: usize,
+    /// This run drops FnRefs from inside the waker's clone (decided per run spec).
+    mid_poll_drops: bool,
 }
 
 impl<'g> StreamDriver<'g> {
@@ -673,6 +704,7 @@ impl<'g> StreamDriver<'g> {
             idle_points: 0,
             post_end_polls: 0,
             yields_seen: 0,
+            mid_poll_drops: (crate::runner::hash_of(spec) >> 7) & 3 == 0,
         }
     }
 
@@ -690,9 +722,47 @@ impl<'g> StreamDriver<'g> {
         self.sh.borrow_mut().log.push(if spurious { Ev::Spurious } else { Ev::Poll });
         self.polls += 1;
         self.first = false;
-        let mut cx = Context::from_waker(&self.waker);
-        let s = self.stream.as_mut().expect("stream polled after drop");
-        let r = catch_unwind(AssertUnwindSafe(|| s.as_mut().poll_next(&mut cx)));
+        // every third poll of a "mid-poll drop" run: one held FnRef is dropped from inside the
+        // waker's clone, i.e. while the stream is registering its waker (see HookCtx)
+        let arm = self.mid_poll_drops && self.polls % 3 == 2 && !self.held.is_empty();
+        let r = if arm {
+            let held = std::cell::RefCell::new(std::mem::take(&mut self.held));
+            let fired = std::cell::Cell::new(false);
+            let sh = self.sh.clone();
+            let flag = self.flag.clone();
+            let pick = self.polls;
+            let hook = || {
+                if fired.replace(true) {
+                    return;
+                }
+                let Ok(mut h) = held.try_borrow_mut() else { return };
+                if h.is_empty() {
+                    return;
+                }
+                let i = pick % h.len();
+                let (f, r) = h.remove(i);
+                drop(h);
+                let _ = catch_unwind(AssertUnwindSafe(move || drop(r)));
+                MID_POLL_DROPS.with(|c| c.set(c.get() + 1));
+                if let Ok(mut st) = sh.try_borrow_mut() {
+                    st.log.push(Ev::RefDrop(f, flag.get()));
+                }
+            };
+            let ctx = HookCtx { flag: self.flag.clone(), hook: &hook };
+            // SAFETY: `ctx` outlives the waker (both live until the end of this block); the vtable
+            // functions only read `ctx`; clones handed to the library are ordinary Arc wakers.
+            let hw = unsafe { Waker::from_raw(std::task::RawWaker::new(&ctx as *const HookCtx<'_> as *const (), &HOOK_VTABLE)) };
+            let mut cx = Context::from_waker(&hw);
+            let s = self.stream.as_mut().expect("stream polled after drop");
+            let r = catch_unwind(AssertUnwindSafe(|| s.as_mut().poll_next(&mut cx)));
+            drop(hw);
+            self.held = held.into_inner();
+            r
+        } else {
+            let mut cx = Context::from_waker(&self.waker);
+            let s = self.stream.as_mut().expect("stream polled after drop");
+            catch_unwind(AssertUnwindSafe(|| s.as_mut().poll_next(&mut cx)))
+        };
         match r {
             Err(p) => {
                 self.sh.borrow_mut().log.push(Ev::Panic);
